@@ -238,7 +238,8 @@ PAR_RULE = ("random TableDP / Knapsack instances x {LEL, frontier, pooled} x {Em
 PAR_TRIVIAL = ["lel", "frontier", "pooled", "cache", "nocache", "threads1", "threads2", "threads3", "threads4", "cache_yield"]
 PAR_TB = SEQ_TB + ["parking_lot::{Mutex, Condvar}: sections are atomic, wait releases the lock and parks atomically, notify_all wakes every parked worker; std::thread::scope joins all workers (modelled, not verified)",
                    "hook H1 (feature xgillard_ddo_verif, add-only) and the harness scheduler; weak-memory effects are outside the model"]
-PAR_ENGINES = [dict(name="par", label="par", args=[]), dict(name="par", label="par_resize", args=["--resize"]), dict(name="par", label="par_cutoff", args=["--cutoff"])]
+PAR_ENGINES = [dict(name="par", label="par", args=[]), dict(name="par", label="par_resize", args=["--resize"]), dict(name="par", label="par_cutoff", args=["--cutoff"]),
+               dict(name="par", label="par_cache", args=["--focus-cache"])]
 
 PROPS["C04"] = dict(
     modules=["DdoModel.Props.C04"],
@@ -258,12 +259,13 @@ PROPS["C03"] = dict(
     stated_not_proved=["Ddo.C03.ParRefinesCover (every section of the executable model is a step of the data-level system)", "runs with cache / dominance (C09 / C10)", "the infeasible case and the closed theorem with the diagram models plugged in"],
     level_text="For the data-level transition system of the parallel solver (fringe, incumbent, and the nodes held by workers together with the stale incumbent each worker read and what its compilations answered; any number of workers; every interleaving of the critical sections and lock-free compilations) the coverage invariant is proved to be preserved by every step of every worker in every order under exactly the diagram contracts, and to imply that the incumbent is the optimum once nothing is open or held. The executable model of the parallel solver, which has the same sections, is validated against the real solver trace by trace under the controlled scheduler (thread counts 1..4, random and PCT schedules, cache accesses as scheduling points), and phi compares every final value with the exact optimum.",
     level_note="Partial: proved without cache, dominance and cutoff; the refinement executable model -> data-level system is by construction of the definitions, not a checked refinement; synchronisation (no deadlock) is C04. Atomicity of the critical sections is assumed (mutex semantics).",
-    engines=PAR_ENGINES[:1], trusted_base=PAR_TB,
+    engines=[PAR_ENGINES[0], PAR_ENGINES[3]], trusted_base=PAR_TB,
     assumptions=["diagram contracts (C06-C08)", "atomic critical sections"],
     rule=PAR_RULE, trivial_tags=PAR_TRIVIAL,
 )
 # the parallel parts of C02 / C05 ride on the same engine
-PROPS["C02"]["engines"] = PROPS["C02"]["engines"] + PAR_ENGINES
+PROPS["C02"]["engines"] = PROPS["C02"]["engines"] + PAR_ENGINES + [dict(name="parstress")]
+PROPS["C03"]["engines"] = PROPS["C03"]["engines"] + [dict(name="parstress")]
 PROPS["C05"]["engines"] = PROPS["C05"]["engines"] + [PAR_ENGINES[2]]
 PROPS["C05"]["level_note"] = "Partial: the parallel abort path is covered by trace validation + phi (bounds at every cutoff point of every explored schedule; this is how defect D4 was found, repaired by fix 976f40b), not yet by a theorem (par_cutoff_bounds stated)."
 PROPS["C05"]["stated_not_proved"] = ["par_cutoff_bounds (parallel part): evaluated by phi on every scheduled run with a cutoff"]
